@@ -16,7 +16,7 @@ VARIABLES l, bad, cell, info, acc, failW, cutW, totW, nleaf, done, stats
 vars == <<l, bad, cell, info, acc, failW, cutW, totW, nleaf, done, stats>>
 
 NoCell == [op |-> "none"]
-Tol == 2
+Tol == 1      \* ulps of the reported float32: the library rounds a float64 value once (<= 0.5 ulp); two roundings in a row reach 1.5
 
 \* ---------------- cell ----------------
 RecipeOf(c) == c.char
@@ -76,8 +76,11 @@ CellWhys(c) ==
     \* exact count (only meaningful under the property's premise)
     IF c.ent.k # "panic" /\ prem /\ r.len >= 0 /\ ~CountMatches(c)
       THEN "P:C07:count-is-not-the-number-of-satisfying-strings" ELSE "ok",
-    IF okE /\ prem /\ r.len >= 1 /\ A >= 1 /\ ~EntropyIsLog2(c.ent, cnt, Tol)
-      THEN "P:C07:entropy-is-not-log2-of-the-exact-count" ELSE "ok",
+    IF okE /\ prem /\ r.len >= 1 /\ A >= 1
+      THEN LET cls == EntropyClass(c.ent, cnt, Tol) IN
+           IF cls = 2 THEN "P:C07:entropy-is-not-log2-of-the-exact-count"
+           ELSE IF cls = 1 THEN "P:C07:entropy-is-log2-of-the-exact-count-rounded-more-than-once(not-to-float32-precision)" ELSE "ok"
+      ELSE "ok",
     \* the likeliest password has probability >= 1/(number of strings the recipe allows): Entropy() above log2 of that number overstates
     IF okE /\ prem /\ r.len >= 1 /\ A >= 1 /\ cnt # <<>> /\ ~EntropyNotAbove(c.ent, cnt, Tol)
       THEN "P:C06:Entropy()-exceeds-log2-of-the-number-of-strings-the-recipe-allows" ELSE "ok",
